@@ -130,3 +130,32 @@ PROPS["C11"] = {
                       "is driven n+1 (max+1) times so termination within the bound is part of the claim"},
     "outside": "n > 6; FromIterator<&SeqSlice> for Vec<Seq> (Vec growth)",
 }
+
+PROPS["C01"] = {
+    "feature": "c01",
+    "tiers": tiers("C01", quick_cfgs=(DAON, DAOFF)),
+    "mem_gb": 16,
+    "functions": ["TryFrom<Vec<u8>|&[u8]|&str|String|&String> for Seq", "FromStr for Seq", "FromIterator<A> for Seq", "Seq::{with_capacity,extend,push}",
+                  "String::from(&SeqSlice)", "Codec::try_from_ascii/to_char per codec"],
+    "bounds": {"all": "see DESIGN 4/C01"},
+    "outside": "inputs longer than the stated byte counts; reallocating growth of the bit vector",
+}
+
+import c14stage
+PROPS["C14"] = {
+    "feature": "c14",
+    "tiers": {"quick": [], "thorough": [], "probe": []},
+    "stages": [c14stage.stage],
+    "mem_gb": 10,
+    "functions": ["translation::standard::initialise_iupac_to_amino (29-row table, re-extracted from source on every run)",
+                  "Standard::try_to_amino (first-match search loop; length check)", "SeqSlice<Iupac>::contains (subset test; real code under C12's harnesses)"],
+    "bounds": {"all": "forward translation only. SMT: symbolic 12-bit codon (three 4-bit symbols), all 15^3 gap-free codons for soundness/completeness "
+                      "in one query each, z3 4.8.12 diffed against cvc5 1.0; encoding tied to the real function by exhaustive native replay of all "
+                      "16^3 codons and of every codon of length 0,1,2,4 (quick) / 0,1,2,4,5 (thorough) at three slice offsets"},
+    "outside": "reverse translation try_to_codon (std HashMap; not applicable to this technique, see MANIFEST notes)",
+    "level_text": "forward half: the solver decides soundness and completeness of the extracted first-match table against NCBI table 1 for all "
+                  "gap-free IUPAC codons; the extraction/encoding is validated against the real function on every codon (exhaustive native replay)",
+    "technique": "SMT (z3, cross-checked with cvc5) over the pattern table extracted from source + exhaustive native replay tying the encoding to the real function",
+    "explanation": "solver over extracted table; reverse half not applicable",
+    "assumptions": ["try_to_codon (reverse translation through a std HashMap) is NOT covered: not applicable to solver-based checking here"],
+}
